@@ -78,7 +78,7 @@ MANIFEST_ENTRY = {
             "running generated requests/responses (one deviation each, arbitrary and non-UTF-8 octets, oversized, all chunkings) on real "
             "protocol objects of both frameworks, by the client x server option matrix wired back-to-back, and by exhaustive small-string "
             "correspondence of the string primitives.",
-    "note": "never_escapes is proved in full for server and client (after the fixes 96829a53 / cb4d1ff0 of F4 / F5, mirrored in the "
+    "note": "server_never_escapes / client_never_escapes are proved in full (after the fixes 96829a53 / cb4d1ff0 of F4 / F5, mirrored in the "
             "model). server_accepts_iff_valid and client_opens_iff_valid are proved without hypotheses since the repairs of the five "
             "former findings (Python int() syntax for Sec-WebSocket-Version / status code, subprotocol compared with factory.protocols, "
             "path parameters dropped from the resource, unbracketed IPv6 Host): the model mirrors the repaired code, the examples that "
